@@ -215,7 +215,8 @@ type failReader struct {
 	data []byte
 	n    int
 	pos  int
-	kind string // which error the failure is: plain, wrapeof, patheof, unexpected, closed
+	kind string // which error the failure is: plain, wrapeof, patheof, unexpected, closed, once (transient: the next Read goes on)
+	fired bool
 }
 
 func (r *failReader) failure() error {
@@ -233,6 +234,20 @@ func (r *failReader) failure() error {
 }
 
 func (r *failReader) Read(p []byte) (int, error) {
+	if r.kind == "once" {
+		// a transient failure (a timeout) after n bytes: reported once, after that the rest of the data is delivered.  A caller that
+		// looks at the stream twice (peeking, re-reading) may lose the error; the export must still fail
+		if r.pos >= r.n && !r.fired {
+			r.fired = true
+			return 0, errors.New("injected transient read failure")
+		}
+		if r.pos >= len(r.data) {
+			return 0, io.EOF
+		}
+		p[0] = r.data[r.pos]
+		r.pos++
+		return 1, nil
+	}
 	if r.pos >= r.n {
 		return 0, r.failure()
 	}
